@@ -302,6 +302,17 @@ Und kann so benutzt werden:
 	"g <x>"
 g 1.
 ''',
+    "import-inside-generic-body-instantiated-from-an-argument": '''Die generische Funktion g mit dem Parameter x vom Typ T, gibt ein T zurück, macht:
+	Binde "Duden/Ausgabe" ein.
+	Gib x zurück.
+Und kann so benutzt werden:
+	"g <x>"
+Die Funktion h mit dem Parameter z vom Typ Zahl, gibt eine Zahl zurück, macht:
+	Gib z zurück.
+Und kann so benutzt werden:
+	"h <z>"
+Die Zahl e ist h (g 1).
+''',
     "list-alias-n-mal": '''Wir nennen eine Zahlen Liste auch eine Zahlenreihe.
 Die Zahlenreihe l ist 3 Mal 0.
 ''',
